@@ -615,7 +615,7 @@ def framing_family(run, replay=None):
 # ConnRead (C07)
 # =====================================================================================================
 
-CR_GUARDS = ["readahead_kept_across_calls", "frame_at_a_time", "remainder_not_reported_as_eof", "timeout_keeps_partial_frame"]
+CR_GUARDS = ["readahead_kept_across_calls", "frame_at_a_time", "remainder_not_reported_as_eof", "timeout_keeps_partial_frame", "session_removed_by_owner_only"]
 
 
 def cr_cfg(lens, maxmsgs, bufs, weak=(), tail='', consts=''):
@@ -871,7 +871,7 @@ def storagecrash_family(run, replay=None):
 # Lifecycle + SetupCode (C20)
 # =====================================================================================================
 
-LC_GUARDS = ["own_key_not_a_pairing", "uuid_loaded", "keypair_loaded", "hash_ignores_values", "version_bumped", "sf_from_pairings", "sf_updated_on_pair", "sf_updated_on_unpair"]
+LC_GUARDS = ["id_stored_before_keypair", "own_key_not_a_pairing", "uuid_loaded", "keypair_loaded", "hash_ignores_values", "version_bumped", "sf_from_pairings", "sf_updated_on_pair", "sf_updated_on_unpair"]
 LC_RULES = {'IdentityStable': 'C20', 'SfRule': 'C20', 'CnumRule': 'C20', 'PairingsPersist': 'C20', 'ActionAccepted': 'C20', 'PinRule': 'C20', 'UriRule': 'C20'}
 
 
@@ -896,8 +896,10 @@ def lifecycle_gen(run):
         if not a:
             raise ToolTrouble('no attack history for guard %s' % g)
         attacks.append((g, a[0]))
-    groups = [('edge', edge), ('word', words)] + [('attack:' + g, [a]) for g, a in attacks]
-    return groups, dict(edge_words=len(edge), words_enumerated=nall, words_replayed=len(words), word_len=n, attack_words=len(attacks))
+    # the first start killed at every crash point of its storage writes (KilledStart of Lifecycle.tla), then normal life
+    kills = [[dict(a='killstart', x='k%d' % k), dict(a='start', x='s1'), dict(a='pair', x='a'), dict(a='stop', x='none'), dict(a='start', x='s1'), dict(a='unpair', x='a')] for k in range(1, 26)]
+    groups = [('edge', edge), ('word', words)] + [('attack:' + g, [a]) for g, a in attacks] + [('killstart', kills)]
+    return groups, dict(edge_words=len(edge), words_enumerated=nall, words_replayed=len(words), word_len=n, attack_words=len(attacks), killed_first_starts=len(kills))
 
 
 @register('C20')
@@ -1288,6 +1290,7 @@ def ids_family(run, replay=None):
                                        'the numbering scheme itself is not pinned: the verdict comes from uniqueness, non-zero-ness, equality of two independent builds and well-formedness'],
                           rule_text='every construction word of up to 3 (thorough 4) accessories over explicit ids 0..3 and 5 service shapes (an initial-state-free enumeration by TLC), executed with real accessory / service / characteristic objects; every accessory constructor of the library substituted for the abstract accessories in turn; each container built twice; distinct = construction word; non-trivial = at least two accessories or an explicit id',
                           nontrivial=lambda b: len(b['steps']) >= 2 or any(s.get('explicit') for s in b['steps']), extra_cov=extra,
+                          pseudo=[dict(id=3000000 + k, kind='library-constructor', steps=[dict(explicit=0, shape=[])]) for k in range(64)] + [dict(id=3999999, kind='library-constructors-all', steps=[dict(explicit=0, shape=[2])])],
                           fpfun=lambda rule, b, line: '%s/%s' % (rule, 'library-constructors' if line.get('variant', -1) >= 0 else 'explicit=%s' % ','.join(str(s.get('explicit')) for s in b['steps'][:4])))
 
 
@@ -1436,10 +1439,13 @@ def responses_gen(run):
     words = run.generate('ResponsesGen', cfgtext='CONSTANTS\n  Ctrl = {"c1", "c2", "c3"}\n  Weak = {}\n  MaxLen = 6\n' + t + 'INVARIANT EmitWord\nCONSTRAINT WordBound\nCHECK_DEADLOCK FALSE\n')
     words = [json.loads(x) for x in sorted(set(json.dumps(w) for w in words))]
 
-    def overlapping(w):       # some response is served while another one is still in flight
+    def overlapping(w):       # some response is served, or an event arises, while another response is still in flight
         out = set()
         for s in w:
-            if s['a'] == 'Send':
+            if s['a'] == 'Event':
+                if out:
+                    return True
+            elif s['a'] == 'Send':
                 if out:
                     return True
                 out.add(s['c'])
@@ -1454,15 +1460,19 @@ def responses_gen(run):
     if not a:
         raise ToolTrouble('no attack word for guard buffer_owned_until_written')
     # the attack word ends where the model breaks; close the outstanding requests so that the word is complete
-    aw = a[0]
-    out = []
-    for s in aw:
-        if s['a'] == 'Send':
-            out.append(s['c'])
-        elif s['c'] in out:
-            out.remove(s['c'])
-    aw = aw + [dict(a='Receive', c=c, k='none') for c in out]
-    return [('word', words), ('attack:buffer_owned_until_written', [aw])], dict(words_enumerated=nall, words_with_overlap=nover, words_replayed=len(words), word_len=6, attack_words=1)
+    def complete(aw):
+        out = []
+        for s in aw:
+            if s['a'] == 'Send':
+                out.append(s['c'])
+            elif s['c'] in out:
+                out.remove(s['c'])
+        return aw + [dict(a='Receive', c=c, k='none') for c in out]
+    aw = complete(a[0])
+    a2 = run.generate('ResponsesGen', cfgtext='CONSTANTS\n  Ctrl = {"c1", "c2"}\n  Weak = {"notifications_wait_for_response"}\n  MaxLen = 6\n' + t + 'INVARIANT NoAttack\nVIEW AttackView\nCHECK_DEADLOCK FALSE\n', expect_violation=True)
+    if not a2:
+        raise ToolTrouble('no attack word for guard notifications_wait_for_response')
+    return [('word', words), ('attack:buffer_owned_until_written', [aw]), ('attack:notifications_wait_for_response', [complete(a2[0])])], dict(words_enumerated=nall, words_with_overlap=nover, words_replayed=len(words), word_len=6, attack_words=1)
 
 
 def responses_family(run, replay=None):
